@@ -44,6 +44,14 @@ func guardsOf(at *ssa.BasicBlock, lp *loopInfo) []fact {
 				}
 			}
 		}
+		// the other branch leaves the function at once (the answer was already known)
+		other := f.If.Block().Succs[0]
+		if f.True {
+			other = f.If.Block().Succs[1]
+		}
+		if _, isRet := other.Instrs[len(other.Instrs)-1].(*ssa.Return); isRet && len(other.Preds) == 1 {
+			continue
+		}
 		out = append(out, f)
 	}
 	return out
@@ -344,15 +352,38 @@ func c09OrderAlways(c *Ctx, p *Prog) {
 		return
 	}
 	n := 0
+	// functions that fill an observation map outside any loop of their own: helpers called once per field
+	helper := map[*ssa.Function]bool{}
+	for _, fn := range p.Funcs("benchproc") {
+		loops := naturalLoops(fn)
+		eachInstr(fn, func(b *ssa.BasicBlock, in ssa.Instruction) {
+			if mu, ok := in.(*ssa.MapUpdate); ok {
+				if f, _ := loadOfField(mu.Map); f == orderF {
+					inLoop := false
+					for _, lp := range loops {
+						if lp.Blocks[b] {
+							inLoop = true
+						}
+					}
+					if !inLoop {
+						helper[fn] = true
+					}
+				}
+			}
+		})
+	}
 	for _, fn := range p.Funcs("benchproc") {
 		for _, lp := range naturalLoops(fn) {
-			var upd *ssa.MapUpdate
+			var upd ssa.Instruction
 			for b := range lp.Blocks {
 				for _, in := range b.Instrs {
 					if mu, ok := in.(*ssa.MapUpdate); ok {
 						if f, _ := loadOfField(mu.Map); f == orderF {
 							upd = mu
 						}
+					}
+					if ci, ok := in.(ssa.CallInstruction); ok && helper[ci.Common().StaticCallee()] {
+						upd = in
 					}
 				}
 			}
@@ -677,26 +708,25 @@ func c09SortKeysAllFields(c *Ctx, p *Prog) {
 		return
 	}
 	n := 0
-	for _, an := range allAnon(fn) {
+	fieldT := p.Named("benchproc", "Field")
+	isFlat := func(v ssa.Value) bool {
+		cl, ok := v.(*ssa.Call)
+		return ok && objIs(calleeObj(&cl.Call), rp("benchproc"), "Projection", "FlattenedFields")
+	}
+	all := p.Funcs("benchproc")
+	for _, an := range all {
 		eachInstr(an, func(_ *ssa.BasicBlock, in ssa.Instruction) {
 			call, ok := in.(*ssa.Call)
 			if !ok {
 				return
 			}
 			h := call.Call.StaticCallee()
-			if h == nil || h.Pkg != fn.Pkg || len(call.Call.Args) != 3 || h.Signature.Recv() != nil {
-				return
-			}
-			if _, isSl := call.Call.Args[0].Type().Underlying().(*types.Slice); !isSl {
+			if h == nil || h.Pkg != fn.Pkg || len(call.Call.Args) != 3 || h.Signature.Recv() != nil || fieldT == nil || !isSliceOfPtr(call.Call.Args[0].Type(), fieldT) || !isStringSlice(call.Call.Args[1].Type()) {
 				return
 			}
 			n++
 			arg := call.Call.Args[0]
 			good := false
-			isFlat := func(v ssa.Value) bool {
-				cl, ok := v.(*ssa.Call)
-				return ok && objIs(calleeObj(&cl.Call), rp("benchproc"), "Projection", "FlattenedFields")
-			}
 			if u, ok := arg.(*ssa.UnOp); ok && u.Op == token.MUL {
 				if fv, ok := u.X.(*ssa.FreeVar); ok && an.Parent() != nil {
 					// the captured variable: its binding in the enclosing function
@@ -714,15 +744,28 @@ func c09SortKeysAllFields(c *Ctx, p *Prog) {
 							}
 						}
 					}
+				} else if f, _ := fieldOfAddr(u.X); f != nil {
+					// a field of a sorter object: every store into that field is FlattenedFields() as returned
+					nst := 0
+					good = true
+					for _, g := range all {
+						for _, st := range storesToField(g, f) {
+							nst++
+							if !isFlat(st.Val) {
+								good = false
+							}
+						}
+					}
+					good = good && nst > 0
 				}
 			} else if isFlat(arg) {
 				good = true
 			}
-			c.Check(good, R, "SortKeys:field list", p.pos(call.Pos()), "the comparison walks FlattenedFields() as returned",
-				"the field list SortKeys compares by is not simply the projection's flattened fields (it is reassigned or derived): keys are then ordered by fewer fields than Key.Less uses, and the result depends on the arrangement the slice arrived in")
+			c.Check(good, R, fmt.Sprintf("%s:field list", fnName(an)), p.pos(call.Pos()), "the comparison walks FlattenedFields() as returned",
+				"the field list keys are compared by is not simply the projection's flattened fields (it is reassigned or derived): keys are then ordered by fewer fields than Key.Less uses, and the result depends on the arrangement the slice arrived in")
 		})
 	}
-	c.Floor(R, "comparison calls in SortKeys", n, 1)
+	c.Floor(R, "calls of the shared comparison function", n, 2)
 }
 
 func allInstrs(fn *ssa.Function) []ssa.Instruction {
